@@ -15,6 +15,7 @@ pub struct Args {
     pub max_depth: usize,
     pub tables: Option<String>,
     pub files: usize,
+    pub long: usize,
 }
 
 fn parse(rest: &[String]) -> Args {
@@ -26,6 +27,7 @@ fn parse(rest: &[String]) -> Args {
         max_depth: 40,
         tables: None,
         files: 1,
+        long: 0,
     };
     let mut i = 0;
     while i < rest.len() {
@@ -38,6 +40,7 @@ fn parse(rest: &[String]) -> Args {
             "--max-depth" => a.max_depth = v.parse().unwrap(),
             "--tables" => a.tables = Some(v),
             "--files" => a.files = v.parse().unwrap(),
+            "--long" => a.long = v.parse().unwrap(),
             x => panic!("unknown arg {x}"),
         }
         i += 2;
@@ -66,7 +69,11 @@ pub fn main(rest: &[String]) -> i32 {
         let path = if a.files == 1 { a.out.clone() } else { format!("{}.{}", a.out, file_idx) };
         let mut out = std::io::BufWriter::new(std::fs::File::create(&path).unwrap());
         let mut rng = StdRng::seed_from_u64(a.seed.wrapping_mul(1000003).wrapping_add(file_idx as u64));
-        run(&a, &roots, &mut rng, &mut out);
+        if a.long > 0 {
+            run_long(&a, &roots, &mut rng, &mut out);
+        } else {
+            run(&a, &roots, &mut rng, &mut out);
+        }
         out.flush().unwrap();
     }
     0
@@ -145,4 +152,59 @@ fn run(a: &Args, roots: &[String], rng: &mut StdRng, out: &mut impl Write) {
         emit(out, "make", Some(proj::pack_move(mv)), &game);
         n += 1;
     }
+}
+
+/// One long game: moves are played (a move is taken back only where the game has ended) until the history
+/// holds `--long` entries, then everything is taken back down to the root.  Every operation is logged.
+fn run_long(a: &Args, roots: &[String], rng: &mut StdRng, out: &mut impl Write) {
+    let fen = &roots[rng.gen_range(0..roots.len())];
+    let mut game = Game::from_fen(fen).unwrap();
+    emit(out, "load", None, &game);
+    let mut guard = 0usize;
+    while game.history.len() < a.long && guard < 20 * a.long {
+        guard += 1;
+        let moves = game.moves();
+        if moves.is_empty() {
+            if game.history.is_empty() {
+                return;
+            }
+            game.undo_move();
+            emit(out, "undo", None, &game);
+            continue;
+        }
+        // keep material on the board for a while: captures only now and then
+        let quiet: Vec<Move> = moves.iter().copied().filter(|m| !m.is_capture()).collect();
+        let mv = if !quiet.is_empty() && !rng.gen_bool(0.05) {
+            quiet[rng.gen_range(0..quiet.len())]
+        } else {
+            moves[rng.gen_range(0..moves.len())]
+        };
+        if !guarded(out, "make", Some(proj::pack_move(mv)), &mut game, |g| g.make_move(mv)) {
+            return;
+        }
+    }
+    while !game.history.is_empty() {
+        if !guarded(out, "undo", None, &mut game, Game::undo_move) {
+            return;
+        }
+    }
+}
+
+/// Runs one operation; a panic inside it is data: a `panic` event naming the operation ends the walk.
+fn guarded(out: &mut impl Write, op: &str, mv: Option<i64>, game: &mut Game, f: impl FnOnce(&mut Game)) -> bool {
+    // the projection of the state before the operation: a panic event carries it (the state after a panic is undefined)
+    let before = proj::full(game);
+    let ok = std::panic::catch_unwind(std::panic::AssertUnwindSafe(|| f(game))).is_ok();
+    if ok {
+        emit(out, op, mv, game);
+    } else {
+        let msg = crate::LAST_PANIC.lock().unwrap().replace('\n', " ");
+        let mut m = before;
+        m.insert("op".into(), json!("panic"));
+        m.insert("during".into(), json!(op));
+        m.insert("mv".into(), json!(mv.unwrap_or(-1)));
+        m.insert("msg".into(), json!(msg));
+        writeln!(out, "{}", Value::Object(m)).unwrap();
+    }
+    ok
 }
